@@ -39,7 +39,7 @@ MIN_COUNTERS = {'quick': {'round_trips': 8000, 'paths_opened_by_pane': 2500, 'ca
                           'returned_strings_checked': 300, 'non_ascii_payloads': 1200, 'failed_reads_checked': 300}}
 
 ALLOW = ('int', 'float', 'str', 'bool', 'none', 'list', 'seq', 'dict', 'tup', 'union', 'dc', 'enum', 'lit', 'fraction', 'decimal',
-         'date', 'time', 'datetime', 'path', 'deque', 'sub', 'cc', 'set')
+         'date', 'time', 'datetime', 'path', 'deque', 'sub', 'cc', 'set', 'bytes')
 STRINGS = ('héllo wörld', '日本語テキスト', '𝒳 astral 🎉', 'tab\there', 'line one\nline two\n', ' leading and trailing ', 'yes', 'no', '~', 'null',
            '1e3', '2023-01-01', '0x10', '- a', 'k: v', '#notacomment', '', "quote's \"double\"", 'bell\x07', 'é' * 30, '@at', '%pct', '|', '>', '!tag', '&a', '*a')
 
